@@ -184,18 +184,20 @@ func (a *pwaligner) fillMatrix_SW() (err error) {
 	var match, fnew float64
 
 	// First row
+	// bgap: best score of a gap ending at the current cell,
+	// either gap opening or gap extension (as bx / maxa below)
+	bgap := a.gapopen
 	for j := 0; j < l2; j++ {
 		c1 = a.seq1.CharAt(0)
 		c2 = a.seq2.CharAt(j)
 		match = a.matchScore(c1, c2, indexseq1[0], indexseq2[j])
 		fnew = 0.0
 		if j > 0 {
-			fnew = a.matrix[0][j-1]
-			if a.trace[0][j-1] == ALIGN_LEFT {
-				fnew += a.gapextend
-			} else {
-				fnew += a.gapopen
+			bgap += a.gapextend
+			if fnew = a.matrix[0][j-1] + a.gapopen; fnew > bgap {
+				bgap = fnew
 			}
+			fnew = bgap
 		}
 		if match > fnew && match > .0 {
 			a.matrix[0][j] = match
@@ -218,6 +220,7 @@ func (a *pwaligner) fillMatrix_SW() (err error) {
 	}
 
 	// First column
+	bgap = a.gapopen
 	for i := 0; i < l1; i++ {
 		c1 = a.seq1.CharAt(i)
 		c2 = a.seq2.CharAt(0)
@@ -225,12 +228,11 @@ func (a *pwaligner) fillMatrix_SW() (err error) {
 
 		fnew = 0.0
 		if i > 0 {
-			fnew = a.matrix[i-1][0]
-			if a.trace[i-1][0] == ALIGN_UP {
-				fnew += a.gapextend
-			} else {
-				fnew += a.gapopen
+			bgap += a.gapextend
+			if fnew = a.matrix[i-1][0] + a.gapopen; fnew > bgap {
+				bgap = fnew
 			}
+			fnew = bgap
 		}
 		if match > fnew && match > .0 {
 			a.matrix[i][0] = match
